@@ -6,7 +6,7 @@ from . import c02, c01, c06
 import modelx as mx
 from modelx.core.cells import Cells
 
-WEIGHTS = {"eval": 8, "set_value": 2.5, "clear": 2.5, "gc": 0.2}
+WEIGHTS = {"eval": 8, "set_value": 2.5, "clear": 2.5, "set_ref": 1.0, "gc": 0.2}
 
 
 def swarm(rng):
